@@ -37,6 +37,20 @@ def handleBell (op : String) (j : Json) : Option Json :=
     let c ← bellConfig j
     let hs ← (jField? j "handles").bind jInts?
     pure (Json.mkObj [("ids", ofInts (idsInit c hs))])
+  else if op == "bell.rots" then do
+    let optName := fun (k : String) => match jField? j k with
+      | some v => jStr? v
+      | none => none
+    let rot := fun (k : String) => do
+      let l ← (jField? j k).bind jNats?
+      match l with
+      | [a, b, c] => some ((a, b, c) : Rot)
+      | _ => none
+    let rl ← rot "rl"
+    let rr ← rot "rr"
+    pure (Json.mkObj [("rots", match requestRots Gen.bases (optName "bl") (optName "br") rl rr with
+      | some (l, r) => ofNats (serRots l r)
+      | none => Json.null)])
   else if op == "bell.gates" then do
     let bv ← (jField? j "bv").bind jInt?
     pure (Json.mkObj [("gates", Json.arr ((Gen.singlePair.gates bv).map
